@@ -563,9 +563,9 @@ func (m *Master) Run(verifDir string, seed int) int {
 			// A finding whose unminimised history does not contain a known
 			// finding's core cannot match it after minimisation either, so it
 			// always gets the full treatment. Findings that do contain one are
-			// confirmed by minimisation for the first 25 per rule; beyond that
+			// confirmed by re-execution and minimisation for the first 8 per rule; beyond that
 			// they are attributed to the known finding by containment.
-			if pre := m.describe(f); examined >= 25 {
+			if pre := m.describe(f); examined >= 8 {
 				attributed := false
 				for _, k := range known {
 					if k.matches(f.Rule, pre) {
@@ -582,7 +582,11 @@ func (m *Master) Run(verifDir string, seed int) int {
 			// determinism discipline: 5 fresh processes must agree
 			repro := 0
 			var text []string
-			for k := 0; k < 5; k++ {
+			reruns := 5
+			if examined > 3 {
+				reruns = 1 // the first three findings of a rule get the full 5x treatment
+			}
+			for k := 0; k < reruns; k++ {
 				o := m.judgeFresh(f.Unit, f.Hist)
 				if hasRule(o.found, f.Rule) {
 					repro++
@@ -592,7 +596,8 @@ func (m *Master) Run(verifDir string, seed int) int {
 				}
 			}
 			g := f
-			if repro == 5 {
+			if repro == reruns {
+				repro = 5
 				g = m.minimize(f)
 				if o := m.judgeFresh(g.Unit, g.Hist); len(o.text) > 0 {
 					text = o.text
